@@ -1,4 +1,4 @@
-\* faithful model of finding F6 (AtomicRemove = FALSE: the range removal is a step of its own after the acknowledgement)
+\* a repair of F6 that does not work (TLC finds the counterexample): the removal is still a step of its own after the acknowledgement, but removes by number AND hash
 CONSTANTS
   N = 3
   Chunks = {2}
@@ -11,7 +11,7 @@ CONSTANTS
   Detector = TRUE
   RetryLimit = 5
   AtomicRemove = FALSE
-  RemoveByHash = FALSE
+  RemoveByHash = TRUE
   LockedRemove = FALSE
   Contents = {0,1}
   FinLag = 0
